@@ -180,6 +180,10 @@ pub fn run_conn(io: &mut dyn Io, m: &mut dyn Machine, mon: Arc<IdleMon>) -> Outc
                 }
             }
         }
+        if rchunk == 0 {
+            // the machine does not want to read now (full-duplex hold): what is buffered stays where it is
+            maybe_buffered = false;
+        }
         if !read_ready {
             let d = next_read.saturating_duration_since(Instant::now());
             own_wait = Some(own_wait.map_or(d, |o| o.min(d)));
